@@ -167,7 +167,9 @@ def frames(case, tgt, anti, ref):
             {c: pd.Series([], dtype=(str if c in ("chromosome", "gene") else "int64" if c in ("start", "end") else float)) for c in cols})
         if permute and len(df) > 1:
             df = df.iloc[rng.permutation(len(df))].reset_index(drop=True)
-        return CopyNumArray(df, {"sample_id": name})
+        from vk import gen
+
+        return CopyNumArray(gen.relabel(df, gen.spec_for(case, name)), {"sample_id": name})
 
     scol = ["chromosome", "start", "end", "gene", "log2", "depth"]
     tcol = scol + (["gc"] if case["picard_gc"] else [])
